@@ -2,7 +2,7 @@
 import re
 from ..panics import run_e1, stable_lit
 from ..rulelib import edges_where, unreachable_without
-from .C39 import make_table_auto
+from .C39 import make_table_auto, validation_gate, operand_gate
 from ..recursion import check_termination
 
 ENTRY = (r'^server::services::message_handler::MessageHandler::handle_message$'
@@ -132,6 +132,9 @@ def run(ctx):
     run_e1(ctx, ENTRY, extra_auto=make_table_auto(ctx))
     r.floor('E1-panic', 'panic_sites', r.counts.get('panic_sites', 0), 150)
     check_action_tables(ctx)
+    # the dispositions of the event-filter evaluation sites rest on these two gates (shared with C39)
+    validation_gate(ctx)
+    operand_gate(ctx)
     r.floor('E6-history-actions', 'history_action_ids', r.counts.get('history_action_ids', 0), 10)
     # E4: recursion reachable from the same entry points
     cg = ctx.cg
